@@ -30,7 +30,7 @@ def _worker(args):
         failed_purge = any(c.get("out") not in (None, "ok") and c["h"].endswith("_removed")
                            and "_".join(c["h"].split("_")[1:-1]) not in case["cdmB"] for c in res["evolved_calls"])
         # a primary key moves while the queue holds the (already simulated) removal of an object of that type
-        moved = [e[1] for e in case["edits"] if e[0] == "move_pkey"]
+        moved = [e[1] for e in case["edits"] if e[0] in ("move_pkey", "move_pkey_composite")]
         removal_at_move = bool(moved) and len(res["snaps"]) > 2 and any(
             q["remote"] is not None and q["remote"][0] == "removed" and q["remote"][1] in moved for q in res["snaps"][-2]["queue"])
         return (evocase.analyse(case, res), evocase.step_gallina(case, res),
